@@ -29,6 +29,9 @@ type Obligation struct {
 	Msg     string
 	Theory  string // "bv", "int", "mixed"
 	Lowered string
+	TryInt   bool // also try the integer-lifted encoding for a pure BV obligation
+	NoLower  bool
+	LiftNote string
 	Harness string
 	Case    string
 
